@@ -58,3 +58,43 @@ def never_none_attrs(repo, rel, clsname):
                     if isinstance(t, ast.Attribute) and U(t.value) == 'self':
                         vals.setdefault(t.attr, []).append(n.value)
     return {a for a, vs in vals.items() if all(isinstance(v, ast.Call) for v in vs)}
+
+
+def dispatch_tables(repo, rel, clsname):
+    """class-level / module-level dict displays mapping constant names to classes (or tuples led by a class):
+    {table name: {key: class name}}"""
+    out = {}
+    cdef = repo.cls(rel, clsname)
+    mod = repo.module(rel)
+    for body in (cdef.body, mod.tree.body):
+        for st in body:
+            if isinstance(st, ast.Assign) and len(st.targets) == 1 and isinstance(st.targets[0], ast.Name) and isinstance(st.value, ast.Dict):
+                table = {}
+                for k, v in zip(st.value.keys, st.value.values):
+                    head = v.elts[0] if isinstance(v, ast.Tuple) and v.elts else v
+                    if isinstance(k, ast.Constant) and isinstance(head, ast.Name) and head.id[:1].isupper():
+                        table[k.value] = head.id
+                if table and len(table) == len(st.value.keys):
+                    out[st.targets[0].id] = table
+    return out
+
+
+def table_constructions(fi, tables):
+    """calls in fi whose callee is a local bound from an element of a dispatch table:
+    [(call node, table name, {key: class})]"""
+    bound = {}
+    for st in ast.walk(fi.node):
+        if isinstance(st, ast.Assign) and len(st.targets) == 1 and isinstance(st.value, ast.Subscript):
+            base = U(st.value.value)
+            tname = base.split('.')[-1]
+            if tname in tables and base in (tname, 'self.' + tname, 'type(self).' + tname) or \
+                    (tname in tables and base.endswith('.' + tname)):
+                t = st.targets[0]
+                head = t.elts[0] if isinstance(t, (ast.Tuple, ast.List)) and t.elts else t
+                if isinstance(head, ast.Name):
+                    bound[head.id] = tname
+    out = []
+    for c in calls_in(fi.node):
+        if isinstance(c.func, ast.Name) and c.func.id in bound:
+            out.append((c, bound[c.func.id], tables[bound[c.func.id]]))
+    return out
